@@ -193,8 +193,8 @@ static void prop_documented(Tape &t, Ctx &c) {
 }
 
 // ------------------------------------------------------------------ defects found by this harness: kinds 2,3,5,6 were fixed in /repo (b9cdd1e, b8ea7d5, f4ed298, 4171d32)
-// and are asserted; kinds 0,1 (surplus data lines) stay a listed known finding, excluded under F-io-surplus-lines
-// (VF_INCLUDE_KNOWN=1 lifts the exclusion so that the witnesses under known/ fail)
+// and are asserted; kinds 0,1 (surplus data lines, former finding F-io-surplus-lines) were fixed later (mm_reader::check_no_more_data)
+// and are asserted as well
 static void prop_candidates(Tape &t, Ctx &c) {
     int kind = static_cast<int>(t.u(0, 6));
     std::string p = scratch_file("cand.dat");
@@ -207,7 +207,6 @@ static void prop_candidates(Tape &t, Ctx &c) {
         write_bytes(p, text_sparse(A, "real", std::to_string(A.n) + " " + std::to_string(A.m) + " " + std::to_string(A.nnz() - k)));
         c.desc << "coordinate file " << describe(A) << " announcing nnz=" << A.nnz() - k << " but holding " << A.nnz() << " data lines";
         c.label("cand:surplus-lines-sparse");
-        if (c.known("F-io-surplus-lines")) return;
         must_throw([&] { read_sparse_as<double>(p); }, "inconsistent sizes: more data lines than announced");
         break; }
     case 1: { // array file with more values than rows*cols
@@ -216,7 +215,6 @@ static void prop_candidates(Tape &t, Ctx &c) {
         write_bytes(p, f.str());
         c.desc << "array file announcing " << n << "x1 but holding " << n + k << " values";
         c.label("cand:surplus-lines-dense");
-        if (c.known("F-io-surplus-lines")) return;
         must_throw([&] { read_dense_as<double>(p); }, "inconsistent sizes: more values than announced");
         break; }
     case 2: { // array file with negative sizes: both negative is returned as a (2^64-n) x (2^64-m) array
